@@ -35,6 +35,7 @@ def step (ph : Phase) (s : S) : Res :=
         | .request id => .cont .waitEnabled ({ s with queue := q }.emit (.done id "noconn"))
         | .enable => .cont .waitEnabled { s with queue := q, enabled := true }
         | .disable => .cont .waitEnabled { s with queue := q }
+        | .decode l => .cont .waitEnabled { s with queue := q, decode := l }
         | .shutdown => .halt { s with queue := q } (.gate .shutdown .finished)
   | .connect =>
     match s.queue with
@@ -42,20 +43,19 @@ def step (ph : Phase) (s : S) : Res :=
       match c with
       | .request id => .cont .connect ({ s with queue := q }.emit (.done id "noconn"))
       | .enable => .cont .connect { s with queue := q }
+      | .decode l => .cont .connect { s with queue := q, decode := l }
       | .disable => .cont .afterDisable { s with queue := q, enabled := false }
       | .shutdown => .halt { s with queue := q } (.gate .shutdown .finished)
     | [] =>
       if !s.handles then .halt s (.gate .shutdown .finished)
-      else
-        match s.cur with
-        | .refuse =>
-          .halt { s with retry := (Retry.afterFailedConnect s.retry).2 }
-            (.gate (.waitFail (Retry.afterFailedConnect s.retry).1) .failFor)
-        | b => .halt s (.gate .connected (.sessionStart b))
+      else if s.cur.fails then
+        .halt { s with retry := (Retry.afterFailedConnect s.retry).2 }
+          (.gate (.waitFail (Retry.afterFailedConnect s.retry).1) .failFor)
+      else .halt s (.gate .connected (.sessionStart s.cur))
   | .sessionStart b => .cont (.session b) { s with retry := Retry.reset s.retry, tcount := 0 }
   | .session b =>
     match b with
-    | .refuse => .halt s (.idle (.session b))
+    | .refuse | .hsfail => .halt s (.idle (.session b))
     | .close | .garbage => .halt s (.gate (.waitDisc (Retry.afterDisconnect s.retry)) .failFor)
     | .silent | .serve =>
       match s.queue with
@@ -63,6 +63,7 @@ def step (ph : Phase) (s : S) : Res :=
       | c :: q =>
         match c with
         | .enable => .cont (.session b) { s with queue := q }
+        | .decode l => .cont (.session b) { s with queue := q, decode := l }
         | .disable => .cont .afterDisable { s with queue := q, enabled := false }
         | .shutdown => .halt { s with queue := q } (.gate .shutdown .finished)
         | .request id =>
@@ -79,6 +80,7 @@ def step (ph : Phase) (s : S) : Res :=
       match c with
       | .request id => .cont .failFor ({ s with queue := q }.emit (.done id "noconn"))
       | .enable => .cont .failFor { s with queue := q }
+      | .decode l => .cont .failFor { s with queue := q, decode := l }
       | .disable => .cont .afterDisable { s with queue := q, enabled := false }
       | .shutdown => .halt { s with queue := q } (.gate .shutdown .finished)
     | [] =>
@@ -88,6 +90,13 @@ def step (ph : Phase) (s : S) : Res :=
 def Res.fin (k : Phase → S → S × Pos) : Res → S × Pos
   | .cont ph s => k ph s
   | .halt s p => (s, p)
+
+@[simp] theorem fails_refuse : Behaviour.fails .refuse = true := rfl
+@[simp] theorem fails_hsfail : Behaviour.fails .hsfail = true := rfl
+@[simp] theorem fails_close : Behaviour.fails .close = false := rfl
+@[simp] theorem fails_garbage : Behaviour.fails .garbage = false := rfl
+@[simp] theorem fails_silent : Behaviour.fails .silent = false := rfl
+@[simp] theorem fails_serve : Behaviour.fails .serve = false := rfl
 
 theorem advance_zero (ph : Phase) (s : S) : advance 0 ph s = (s, .idle ph) := rfl
 
@@ -278,7 +287,7 @@ theorem legalLog_of (log : List Ev)
 def phaseOk (l : St) : Phase → Bool
   | .waitEnabled => match l with | .disabled | .waitFail _ | .waitDisc _ => true | _ => false
   | .connect => match l with | .connecting => true | _ => false
-  | .sessionStart b | .session b => (match l with | .connected => true | _ => false) && b != .refuse
+  | .sessionStart b | .session b => (match l with | .connected => true | _ => false) && !b.fails
   | .failFor => match l with | .waitFail _ | .waitDisc _ => true | _ => false
   | .afterDisable =>
     match l with | .connecting | .connected | .waitFail _ | .waitDisc _ => true | _ => false
@@ -458,11 +467,11 @@ theorem advance_gate_facts (fuel : Nat) (ph : Phase) (s : S) :
     ∀ st next, (advance fuel ph s).2 = .gate st next →
       (st = .connecting → (advance fuel ph s).1.enabled = true ∧ next = .connect) ∧
       (st = .connected → (advance fuel ph s).1.queue = [] ∧
-        ∃ b, next = .sessionStart b ∧ b ≠ .refuse) := by
+        ∃ b, next = .sessionStart b ∧ b.fails = false) := by
   refine advance_inv (P := fun _ _ => True)
     (Q := fun s pos => ∀ st next, pos = .gate st next →
       (st = .connecting → s.enabled = true ∧ next = .connect) ∧
-      (st = .connected → s.queue = [] ∧ ∃ b, next = .sessionStart b ∧ b ≠ .refuse))
+      (st = .connected → s.queue = [] ∧ ∃ b, next = .sessionStart b ∧ b.fails = false))
     (fun _ _ _ => by simp) ?_ fuel ph s trivial
   intro ph s _
   unfold step
@@ -481,6 +490,7 @@ def noconnEvents (q : List Cmd) : List Ev :=
 @[simp] theorem noconnEvents_enable (q : List Cmd) : noconnEvents (.enable :: q) = noconnEvents q := rfl
 @[simp] theorem noconnEvents_disable (q : List Cmd) : noconnEvents (.disable :: q) = noconnEvents q := rfl
 @[simp] theorem noconnEvents_shutdown (q : List Cmd) : noconnEvents (.shutdown :: q) = noconnEvents q := rfl
+@[simp] theorem noconnEvents_decode (l : Nat) (q : List Cmd) : noconnEvents (.decode l :: q) = noconnEvents q := rfl
 theorem noconnEvents_append (a b : List Cmd) :
     noconnEvents (a ++ b) = noconnEvents a ++ noconnEvents b := by
   simp [noconnEvents, List.filterMap_append]
@@ -576,21 +586,48 @@ theorem advance_drained (fuel : Nat) : ∀ (ph : Phase) (s : S), notConnected ph
 
 /-- commands that do not change the channel state while it is enabled -/
 def benign : Cmd → Bool
-  | .request _ | .enable => true
+  | .request _ | .enable | .decode _ => true
   | _ => false
 
 /-- commands that do not change the channel state while it is disabled -/
 def inert : Cmd → Bool
-  | .request _ | .disable => true
+  | .request _ | .disable | .decode _ => true
   | _ => false
 
-/-- in `connect` and `failFor` a stretch of requests and (redundant) enables is consumed at
-    once, every request failing with noconn -/
+/-- the decode level after a consumed stretch of the queue: the last `DecodeLevel` setting wins -/
+def decodeAfter (d : Nat) : List Cmd → Nat
+  | [] => d
+  | .decode l :: q => decodeAfter l q
+  | _ :: q => decodeAfter d q
+
+@[simp] theorem decodeAfter_nil (d : Nat) : decodeAfter d [] = d := rfl
+@[simp] theorem decodeAfter_decode (d l : Nat) (q : List Cmd) :
+    decodeAfter d (.decode l :: q) = decodeAfter l q := rfl
+@[simp] theorem decodeAfter_request (d id : Nat) (q : List Cmd) :
+    decodeAfter d (.request id :: q) = decodeAfter d q := rfl
+@[simp] theorem decodeAfter_enable (d : Nat) (q : List Cmd) :
+    decodeAfter d (.enable :: q) = decodeAfter d q := rfl
+@[simp] theorem decodeAfter_disable (d : Nat) (q : List Cmd) :
+    decodeAfter d (.disable :: q) = decodeAfter d q := rfl
+@[simp] theorem decodeAfter_shutdown (d : Nat) (q : List Cmd) :
+    decodeAfter d (.shutdown :: q) = decodeAfter d q := rfl
+
+/-- a stretch of requests carries no decode-level change -/
+theorem decodeAfter_requests (d : Nat) (ids : List Nat) :
+    decodeAfter d (ids.map Cmd.request) = d := by
+  induction ids with
+  | nil => rfl
+  | cons i ids ih => simpa using ih
+
+/-- in `connect` and `failFor` a stretch of requests, (redundant) enables and decode-level
+    changes is consumed at once, every request failing with noconn; the decode level is the only
+    other thing that changes -/
 theorem advance_benign (ph : Phase) (hph : ph = .connect ∨ ph = .failFor) :
     ∀ (pre rest : List Cmd) (s : S) (k : Nat), (∀ c ∈ pre, benign c = true) →
       s.queue = pre ++ rest →
       advance (pre.length + k) ph s =
-        advance k ph { s with queue := rest, log := s.log ++ noconnEvents pre } := by
+        advance k ph { s with queue := rest, log := s.log ++ noconnEvents pre,
+                              decode := decodeAfter s.decode pre } := by
   intro pre
   induction pre with
   | nil =>
@@ -611,13 +648,14 @@ theorem advance_benign (ph : Phase) (hph : ph = .connect ∨ ph = .failFor) :
       rw [ih rest _ k hpre (by simp)]
       simp [S.emit]
 
-/-- in `wait_for_enabled` (disabled) a stretch of requests and (redundant) disables is consumed
-    at once, every request failing with noconn -/
+/-- in `wait_for_enabled` (disabled) a stretch of requests, (redundant) disables and decode-level
+    changes is consumed at once, every request failing with noconn; the channel stays disabled -/
 theorem advance_inert :
     ∀ (pre rest : List Cmd) (s : S) (k : Nat), (∀ c ∈ pre, inert c = true) →
       s.enabled = false → s.queue = pre ++ rest →
       advance (pre.length + k) .waitEnabled s =
-        advance k .waitEnabled { s with queue := rest, log := s.log ++ noconnEvents pre } := by
+        advance k .waitEnabled { s with queue := rest, log := s.log ++ noconnEvents pre,
+                                        decode := decodeAfter s.decode pre } := by
   intro pre
   induction pre with
   | nil =>
@@ -660,7 +698,7 @@ def muPos (s : S) : Pos → Nat
 
 /-- a session phase never carries the behaviour `refuse` -/
 def sessOk : Phase → Bool
-  | .session b | .sessionStart b => b != .refuse
+  | .session b | .sessionStart b => !b.fails
   | _ => true
 
 /-- the task is bound to terminate: `Shutdown` is queued or no handle is left -/
@@ -857,6 +895,8 @@ def queued (id : Nat) (q : List Cmd) : Nat := q.count (.request id)
 @[simp] theorem queued_cons_disable (id : Nat) (q : List Cmd) : queued id (.disable :: q) = queued id q := by
   simp [queued]
 @[simp] theorem queued_cons_shutdown (id : Nat) (q : List Cmd) : queued id (.shutdown :: q) = queued id q := by
+  simp [queued]
+@[simp] theorem queued_cons_decode (id l : Nat) (q : List Cmd) : queued id (.decode l :: q) = queued id q := by
   simp [queued]
 
 /-- what an iteration preserves: nothing is submitted by the task, and every request leaving the
@@ -1092,19 +1132,17 @@ theorem advance_waitEnabled_enabled (f : Nat) (s : S) (he : s.enabled = true) :
   simp [advance_succ, step, he, Res.fin]
 
 theorem stop_connect_refused (s : S) (hq : s.queue = []) (hh : s.handles = true)
-    (hc : s.cur = .refuse) :
+    (hc : s.cur.fails = true) :
     stop s (.gate .connecting .connect) [] =
       ({ s with log := s.log ++ [.gate .connecting], retry := (Retry.afterFailedConnect s.retry).2 },
         .gate (.waitFail (Retry.afterFailedConnect s.retry).1) .failFor) := by
   simp [stop, fuelFor_succ, advance_succ, step, hq, hh, hc, Res.fin, S.emit]
 
 theorem stop_connect_accepted (s : S) (hq : s.queue = []) (hh : s.handles = true)
-    (hc : s.cur ≠ .refuse) :
+    (hc : s.cur.fails = false) :
     stop s (.gate .connecting .connect) [] =
       ({ s with log := s.log ++ [.gate .connecting] }, .gate .connected (.sessionStart s.cur)) := by
-  simp only [stop, fuelFor_succ, advance_succ, step, List.foldl_nil, emit_queue, hq, emit_handles, hh,
-    Bool.not_true, Bool.false_eq_true, ↓reduceIte, emit_cur]
-  cases hcur : s.cur <;> simp_all [Res.fin, S.emit]
+  simp [stop, fuelFor_succ, advance_succ, step, hq, hh, hc, Res.fin, S.emit]
 
 theorem stop_failFor_timer (s : S) (st : St) (hq : s.queue = []) (hh : s.handles = true) :
     stop s (.gate st .failFor) [] = advance 7 .waitEnabled (s.emit (.gate st)) := by
@@ -1119,8 +1157,58 @@ theorem nextBehaviour_cons2 (s : S) (b x : Behaviour) (t : List Behaviour)
     nextBehaviour s = (b, { s with behaviours := x :: t }) := by
   simp [nextBehaviour, h]
 
-/-- the reconnect loop: `k` refused attempts, then an accepted one, with nothing else going on -/
-theorem reconnect_loop (b : Behaviour) (hb : b ≠ .refuse) (k : Nat) :
+/-- the reconnect loop: a stretch `fs` of failing attempts (refused connects and failed
+    handshakes, in any order), then an accepted one, with nothing else going on -/
+theorem reconnect_loop_fails (b : Behaviour) (hb : b.fails = false) (fs : List Behaviour) :
+    ∀ (s : S) (f : Nat), s.enabled = true → s.queue = [] → s.handles = true →
+      (∀ x ∈ fs, x.fails = true) → s.behaviours = fs ++ [b] →
+      (runStops (advance (f + 1) .waitEnabled s).1 (advance (f + 1) .waitEnabled s).2
+          (List.replicate (2 * fs.length + 1) [])).2 = .gate .connected (.sessionStart b) ∧
+      states (runStops (advance (f + 1) .waitEnabled s).1 (advance (f + 1) .waitEnabled s).2
+          (List.replicate (2 * fs.length + 1) [])).1.log =
+        states s.log ++ failEvents (Retry.failures s.retry fs.length) ++ [.connecting] ∧
+      (runStops (advance (f + 1) .waitEnabled s).1 (advance (f + 1) .waitEnabled s).2
+          (List.replicate (2 * fs.length + 1) [])).1.retry = retryAfter s.retry fs.length := by
+  induction fs with
+  | nil =>
+    intro s f he hq hh _ hbs
+    simp only [List.nil_append] at hbs
+    rw [advance_waitEnabled_enabled f s he]
+    rw [nextBehaviour_single s b hbs]
+    simp only [List.length_nil, Nat.mul_zero, Nat.zero_add, List.replicate_succ,
+      List.replicate_zero, runStops_cons]
+    rw [stop_connect_accepted { s with cur := b } hq hh hb]
+    simp [runStops, failEvents, Retry.failures, retryAfter]
+  | cons x0 fs ih =>
+    intro s f he hq hh hfs hbs
+    have hx0 : x0.fails = true := hfs x0 (by simp)
+    have hfs' : ∀ x ∈ fs, x.fails = true := fun x hx => hfs x (by simp [hx])
+    have htail : ∃ x t, fs ++ [b] = x :: t := by
+      cases fs with
+      | nil => exact ⟨b, [], rfl⟩
+      | cons y t => exact ⟨y, t ++ [b], rfl⟩
+    obtain ⟨x, t, ht⟩ := htail
+    have h2 : 2 * (x0 :: fs).length + 1 = (2 * fs.length + 1) + 1 + 1 := by
+      simp only [List.length_cons]; omega
+    have hbs' : s.behaviours = x0 :: x :: t := by
+      rw [hbs, List.cons_append, ht]
+    rw [h2, advance_waitEnabled_enabled f s he]
+    rw [nextBehaviour_cons2 s _ x t hbs']
+    simp only [List.replicate_succ, runStops_cons]
+    rw [stop_connect_refused { s with behaviours := x :: t, cur := x0 } hq hh hx0]
+    simp only []
+    rw [stop_failFor_timer { s with behaviours := x :: t, cur := x0, log := s.log ++ [Ev.gate St.connecting], retry := (Retry.afterFailedConnect s.retry).2 } _ hq hh]
+    have := ih (S.emit { s with behaviours := x :: t, cur := x0, log := s.log ++ [Ev.gate St.connecting], retry := (Retry.afterFailedConnect s.retry).2 }
+        (Ev.gate (St.waitFail (Retry.afterFailedConnect s.retry).1))) 6 he hq hh hfs' ht.symm
+    simp only [List.replicate_succ, runStops_cons, Nat.reduceAdd] at this
+    refine ⟨this.1, ?_, ?_⟩
+    · rw [this.2.1]
+      simp [failEvents, Retry.failures, List.flatMap_cons, states]
+    · rw [this.2.2]
+      simp [retryAfter]
+
+/-- the reconnect loop with `k` refused attempts -/
+theorem reconnect_loop (b : Behaviour) (hb : b.fails = false) (k : Nat) :
     ∀ (s : S) (f : Nat), s.enabled = true → s.queue = [] → s.handles = true →
       s.behaviours = List.replicate k .refuse ++ [b] →
       (runStops (advance (f + 1) .waitEnabled s).1 (advance (f + 1) .waitEnabled s).2
@@ -1130,39 +1218,10 @@ theorem reconnect_loop (b : Behaviour) (hb : b ≠ .refuse) (k : Nat) :
         states s.log ++ failEvents (Retry.failures s.retry k) ++ [.connecting] ∧
       (runStops (advance (f + 1) .waitEnabled s).1 (advance (f + 1) .waitEnabled s).2
           (List.replicate (2 * k + 1) [])).1.retry = retryAfter s.retry k := by
-  induction k with
-  | zero =>
-    intro s f he hq hh hbs
-    simp only [List.replicate_zero, List.nil_append] at hbs
-    rw [advance_waitEnabled_enabled f s he]
-    rw [nextBehaviour_single s b hbs]
-    simp only [Nat.mul_zero, Nat.zero_add, List.replicate_succ, List.replicate_zero, runStops_cons]
-    rw [stop_connect_accepted { s with cur := b } hq hh hb]
-    simp [runStops, failEvents, Retry.failures, retryAfter]
-  | succ k ih =>
-    intro s f he hq hh hbs
-    have htail : ∃ x t, List.replicate k Behaviour.refuse ++ [b] = x :: t := by
-      cases k with
-      | zero => exact ⟨b, [], rfl⟩
-      | succ k => exact ⟨.refuse, List.replicate k .refuse ++ [b], by simp [List.replicate_succ]⟩
-    obtain ⟨x, t, ht⟩ := htail
-    have h2 : 2 * (k + 1) + 1 = (2 * k + 1) + 1 + 1 := by omega
-    have hbs' : s.behaviours = .refuse :: x :: t := by
-      rw [hbs, List.replicate_succ, List.cons_append, ht]
-    rw [h2, advance_waitEnabled_enabled f s he]
-    rw [nextBehaviour_cons2 s _ x t hbs']
-    simp only [List.replicate_succ, runStops_cons]
-    rw [stop_connect_refused { s with behaviours := x :: t, cur := .refuse } hq hh rfl]
-    simp only []
-    rw [stop_failFor_timer { s with behaviours := x :: t, cur := .refuse, log := s.log ++ [Ev.gate St.connecting], retry := (Retry.afterFailedConnect s.retry).2 } _ hq hh]
-    have := ih (S.emit { s with behaviours := x :: t, cur := .refuse, log := s.log ++ [Ev.gate St.connecting], retry := (Retry.afterFailedConnect s.retry).2 }
-        (Ev.gate (St.waitFail (Retry.afterFailedConnect s.retry).1))) 6 he hq hh ht.symm
-    simp only [List.replicate_succ, runStops_cons, Nat.reduceAdd] at this
-    refine ⟨this.1, ?_, ?_⟩
-    · rw [this.2.1]
-      simp [failEvents, Retry.failures, List.flatMap_cons, states]
-    · rw [this.2.2]
-      simp [retryAfter]
+  intro s f he hq hh hbs
+  have := reconnect_loop_fails b hb (List.replicate k .refuse) s f he hq hh
+    (fun x hx => by rw [List.eq_of_mem_replicate hx]; rfl) hbs
+  simpa using this
 
 
 /-- the completions of a stretch of requests that all time out -/
